@@ -122,6 +122,8 @@ class Embedding:
             return None
         if self.parter is not None:
             r = self.parter(obj, active)
+            if r is None:
+                return None
             return r if isinstance(r, tuple) else (r, ())
         args = []
         for i, f in enumerate(self.sympy_fields):
@@ -192,13 +194,13 @@ def _special(cls):
     n = cls.__name__
     if n == "PoolSum":
         return dict(n_positions=1, has_eval=True, builder=lambda a, act, at=(): cls(_F(a[0], _K), (_K, (0, 1))),
-                    parter=lambda e, act: [e.args[0].args[0]])
+                    parter=lambda e, act: [e.args[0].args[0]] if getattr(e.args[0], "func", None) == _F and e.args[1][0] == _K else None)
     if n == "UnevaluatableIntegral":
         return dict(n_positions=2, builder=lambda a, act, at=(): cls(_F(a[0], _T), (_T, 0, a[1] if len(a) > 1 else sp.Symbol("u1"))),
-                    parter=lambda e, act: [e.args[0].args[0], e.args[1][2]][: len(act)])
+                    parter=lambda e, act: [e.args[0].args[0], e.args[1][2]][: len(act)] if getattr(e.args[0], "func", None) == _F else None)
     if n == "_SymbolicSum":
         return dict(n_positions=1, has_eval=True, builder=lambda a, act, at=(): cls(_F(a[0], _K), (_K, 0, 2)),
-                    parter=lambda e, act: [e.args[0].args[0]])
+                    parter=lambda e, act: [e.args[0].args[0]] if getattr(e.args[0], "func", None) == _F else None)
     if n == "ArraySlice":
         return dict(n_positions=1, builder=lambda a, act, at=(): cls(a[0], (slice(None), 0)), parter=lambda e, act: [e.args[0]])
     if n == "ArrayElement":
